@@ -34,7 +34,7 @@ type Spec struct {
 	Round     uint64   `json:"round,omitempty"`
 	Signers   []uint64 `json:"signers,omitempty"`
 	Leader    bool     `json:"leader,omitempty"` // single signer = round-robin leader of (height, round)
-	Value     string   `json:"value,omitempty"` // "" none, else literal full data
+	Value     string   `json:"value,omitempty"`  // "" none, else literal full data
 	BadRoot   bool     `json:"bad_root,omitempty"`
 	Just      string   `json:"just,omitempty"` // none garbage nested prepare-in-rc
 	SigKind   string   `json:"sig,omitempty"`  // ok zero short long
@@ -260,6 +260,9 @@ func (s *Spec) Build(e *valfx.Env, signed bool) (string, []byte, time.Time) {
 			t = ts[(s.TopicN+1)%len(ts)]
 		}
 		topic = t
+	case "index": // exactly the TopicN-th topic, whether or not it is the validator's
+		ts := commons.Topics()
+		topic = ts[s.TopicN%len(ts)]
 	case "garbage":
 		topic = "ssv.v2.unknown"
 	case "empty":
